@@ -18,7 +18,7 @@ UNIMPLEMENTED = [(0, 1, 0), (1, 1, 0), (1, 3, 0), (1, 5, 0), (1, 7, 0)]
 # unimplemented selections whose exception message is built with InclParam::toString() -> Convert::ToString(bool) ->
 # std::ostringstream: the engine has no model of basic_ios::init / std::locale yet (VSYMEX-INCONCLUSIVE ... _M_cache_locale);
 # set the flag when it has, the queries are complete
-OSTRINGSTREAM_MODELLED = False
+OSTRINGSTREAM_MODELLED = True
 UNIMPLEMENTED_TOSTRING = [(0, 2, 0), (0, 3, 0), (0, 3, 1), (0, 4, 0), (0, 6, 0), (0, 7, 0), (0, 7, 1), (1, 0, 0), (1, 1, 1), (1, 2, 0), (1, 3, 1)]
 # sub-universes of B over 2 states, {a/0,b/0,g/2} (bit i = universe rule i is a solver variable)
 B6 = '0x81ful'    # a->r0, a->r1, b->r0, b->r1, g(r0,r0)->r0, g(r1,r1)->r1
